@@ -202,3 +202,16 @@ Fixpoint grun (T : tparams) (D : nat -> hasher) (i : nat) (st : shared) (gs : li
   end.
 
 Definition shared_init : shared := mksh E [].
+
+(* ------------------------------------------------------------------ *)
+(* Path.Append / Path.Prepend (merklize.go 489-514)                     *)
+(* ------------------------------------------------------------------ *)
+(* parts are typed (string | int), so the type check of the Go loop always passes;
+   `p.parts = append(p.parts, parts...)` / `append(parts, p.parts...)`: the hasher
+   field is untouched, the new parts keep their order, and the result is a fresh
+   value (Path is copied by value; the model has no aliasing by construction, the
+   harness checks that copies mutated independently do not affect each other) *)
+Definition path_append (p : path) (parts : list part) : path :=
+  mkpath (p_parts p ++ parts) (p_hasher p).
+Definition path_prepend (p : path) (parts : list part) : path :=
+  mkpath (parts ++ p_parts p) (p_hasher p).
